@@ -44,6 +44,9 @@ CHECKS['C12'] = ('property-based testing: generated update/load histories, JSON 
 CHECKS['C14'] = ('property-based testing over generated call histories (sequence generation with shrinking), snapshot-equality and fresh-instance / fresh-process differential oracles',
   'Generated histories of recipe / calibrate (optionally resumed) / quantize (with the SHARED calibration result object) / validate calls on one or two Quantizer objects over a generated model: after every call each caller-owned object (model bytes, recipe list passed in, calibration data, previous result, calibration result, test data) must be deep-equal (numpy-aware: dtype, shape, values, key order) to its snapshot; every quantize() output must have the sha256 of a fresh Quantizer given deep copies of the same arguments; a sample of triples is re-executed in fresh processes under PYTHONHASHSEED 1 and 12345.',
   'load_config_policy excluded from the alphabet; fresh-process comparison is sampled (1/32 quick, 1/12 thorough of the cases that quantize).', 'DESIGN.md 4 C14')
+CHECKS['C09'] = ('property-based testing: datasets x resume splits, reference statistics recomputed from the check\'s own interpreter run and moving-average fold',
+  'Generated models (1..2 signatures) x calibration-requiring recipes x datasets of 1..6 samples of different magnitudes x drawn cut points: every runtime statistic returned by calibrate() must equal (rtol 1e-5) the 0.95 moving average, in dataset order with the first sample initialising, of the per-sample min/max the check reads from its own float interpreter; every constant statistic must be a true per-tensor or single-axis min/max (the kernel axis for channel-wise weights); calibrating in resumed sessions must equal the single pass (rtol 1e-6) and leave the previous result deep-equal to its snapshot.',
+  'LiteRT float interpreter with preserved tensors trusted; EMA recomputed in float64.', 'DESIGN.md 4 C09')
 NOT_APPLICABLE = {}
 
 def main():
